@@ -10,8 +10,9 @@ META = {
     "bounds": "lengths concrete per query: PRF/MAC input L(32), output {0,1,15,16,17,32,33}; PrfShort every (inlen,outlen) in 0..16 x 0..16 "
               "(thorough; quick: boundary pairs) and the range check with fully symbolic 64-bit lengths; HMAC key {0,1,31,32,33,63,64,65,100} x message L(8); "
               "KMAC outlen {32 (precomputed), 0,16,31,33,64} x key {0,1,16,40} x custom {0,3,9} x message L(8) (quick: a cross-section). "
-              "Keys, messages, customisation strings, presented tags symbolic.",
-    "outside": "lengths not in the grid",
+              "Keys, messages, customisation strings, presented tags symbolic. Fixed-length PRF through the incremental API: the declared output length is "
+              "SYMBOLIC (every value below 2^29 in one query), first 17 output bytes compared.",
+    "outside": "lengths not in the grid; declared fixed PRF lengths of 2^29 bytes and more (8*length does not fit the 32-bit IV field; the property does not say what they mean)",
     "assumptions": ["transcript form composed with C08"],
     "explanation": "lock-step transcript equivalence",
 }
@@ -30,13 +31,13 @@ def prechecks(tier, run_dir):
 
 
 def q(mode, be, mlen, outlen=16, klen=16, clen=0, fam=0, form="T"):
-    mn = {0: "prf", 1: "prf_fixed", 2: "mac", 3: "mac_verify", 4: "prf_short", 5: "prf_short_range", 6: "hmac", 7: "kmac"}[mode]
+    mn = {0: "prf", 1: "prf_fixed", 2: "mac", 3: "mac_verify", 4: "prf_short", 5: "prf_short_range", 6: "hmac", 7: "kmac", 8: "prf_fixed_declared"}[mode]
     name = "%s:%s:%s:m%d:o%d" % (mn, be, form, mlen, outlen)
     if mode in (6, 7):
         name += ":k%d:f%d" % (klen, fam)
     if mode == 7:
         name += ":c%d" % clen
-    if mode <= 5:
+    if mode <= 5 or mode == 8:
         n = 2 + mlen // 32 + (outlen + 15) // 16 + 2
     elif mode == 6:
         n = hmac_calls(klen, mlen) + 4
@@ -63,6 +64,8 @@ def queries(tier):
         for i, o in pairs:
             qs.append(q(4, be, i, outlen=o))
         qs.append(q(5, be, 0, outlen=16))
+        for m in ([33] if tier == "quick" else [0, 33]):
+            qs.append(q(8, be, m, outlen=17))       # declared fixed length symbolic (all values < 2^29): seed C04-7
         for fam in (0, 1):
             klens = [0, 1, 31, 32, 33, 63, 64, 65, 100] if (tier == "thorough" or be == "c64") else [0, 64, 65]
             for k in klens:
